@@ -15,6 +15,9 @@ set_option linter.constructorNameAsVariable false
   array <common> burgers(3) linear bw cutoff nsym | tab(3N')
   region m n shape width box(12) N pos(3N)          -> ok radius | outside flags | near flags   | err:assert
   disreg m n planepos(3) N pos(3N) disp(3N)         -> ok above below | coord | vals(3 per coord) | margin | err:value
+  params vects(9) ucell_a nshifts shift(3)* | ctor-args | ncalls (set|gen args)* | center(- | 3) cscale | width wscale
+      args = shift(- | 3 rat) index(- | int) scale(0/1)
+      -> ok ctor-shift | reply ; reply … | final shift | center | width        | err:value / err:index (constructor refused)
      <common> = m n | s0 s1 s2 qa qb qc | pbc(3) | rcell box(12) | natoms | (atype x y z)* | shift(3) | center(3)
 -/
 
@@ -417,6 +420,49 @@ def handleDisreg (toks : List String) : String :=
       "ok " ++ showRats [r.above, r.below] ++ " | " ++ showRats r.coord ++ " | " ++
         showRats (r.vals.flatMap (·.toList)) ++ " | " ++ showRat (min (mg r.above) (mg r.below))
 
+/-! ### params: shift / centre / width resolution over a history of calls on one object -/
+
+def pOptV3 : P (Option (V3 Rat)) := fun s =>
+  match s with
+  | "-" :: r => some (none, r)
+  | _ => (do let v ← pV3; pure (some v) : P _) s
+
+def pShiftArgs : P (ShiftArgs Rat) := do
+  let s ← pOptV3; let i ← pOptInt; let sc ← pBool
+  pure ⟨s, i, sc⟩
+
+def pShiftCall : P (ShiftCall Rat) := do
+  let k ← tok
+  let a ← pShiftArgs
+  if k = "set" then pure (.set a) else if k = "gen" then pure (.gen a) else failure
+
+def showReply : Except String (V3 Rat) → String
+  | .ok v => "ok " ++ showV v
+  | .error e => "err:" ++ e
+
+def handleParams (toks : List String) : String :=
+  let p : P (M3 Rat × Rat × List (V3 Rat) × ShiftArgs Rat × List (ShiftCall Rat) × Option (V3 Rat) × Bool × Rat × Bool) := do
+    let vects ← pM3
+    let ua ← pRat
+    let ns ← pNat
+    let shifts ← pMany pV3 ns
+    let ctor ← pShiftArgs
+    let nc ← pNat
+    let calls ← pMany pShiftCall nc
+    let c ← pOptV3; let cs ← pBool
+    let w ← pRat; let ws ← pBool
+    pEnd
+    pure (vects, ua, shifts, ctor, calls, c, cs, w, ws)
+  match p.run toks with
+  | none => err "format"
+  | some ((vects, ua, shifts, ctor, calls, c, cs, w, ws), _) =>
+    match setShift vects shifts ctor with
+    | .error e => err e
+    | .ok s0 =>
+      let r := runShiftCalls vects shifts s0 calls
+      "ok " ++ showV s0 ++ " | " ++ " ; ".intercalate (r.2.map showReply) ++ " | " ++ showV r.1 ++ " | " ++
+        showV (resolveCenter vects c cs) ++ " | " ++ showRat (resolveWidth ua w ws)
+
 def handleC13 (toks : List String) : String :=
   match toks with
   | "cells" :: rest =>
@@ -454,6 +500,7 @@ def handleC13 (toks : List String) : String :=
   | "array" :: rest => handleArray rest
   | "region" :: rest => handleRegion rest
   | "disreg" :: rest => handleDisreg rest
+  | "params" :: rest => handleParams rest
   | _ => err "op"
 
 def main : IO Unit := runDriver handleC13
